@@ -123,8 +123,11 @@ def get_type_graph(t: type) -> graphlib.TopologicalSorter[TypeNode]:
         predecessors = []
         for var, child in _level(parent_unwrapped):
             # If no type was provided, there's no reason to do further processing.
-            #   The same goes for the `...` of a variadic tuple.
-            if child in (constants.empty, typing.Any, ...):
+            #   The same goes for un-typed fields and the `...` of a variadic tuple.
+            #   `Any` as a generic argument still needs a (no-op) routine in the context.
+            if child in (constants.empty, ...) or (
+                child is typing.Any and var is not None
+            ):
                 continue
 
             unwrapped = inspection.unwrap(child)
